@@ -14,6 +14,13 @@ Oracle: direct float64 DFT.  Every member psi of the array returned by the real 
                               `abtem.multislice.multislice_and_detect`, eager and inside dask tasks), with the
                               number of members seen by the hook equal to the requested ensemble size
 
+  joint-compute-normalized / joint-compute-equals-separate
+                              2-3 *lazy* builders of one class (same grid, different energy / normalize flag / aperture /
+                              aberrations / tilt / positions) evaluated in ONE dask computation - dask.compute(*arrays),
+                              abtem.stack([...]).compute(), a lazy intensity difference, or after one more lazy multislice
+                              layer - must each keep their own normalisation and equal the eager build of a fresh builder
+                              (a dask key shared between builders would hand one builder's waves to the other)
+
 An exception out of `build` for a documented argument combination is a violation (the promised probe was
 not delivered).  Degenerate apertures that contain no Fourier pixel at all (0/0) are not judged: the
 generator keeps ring apertures at least two reciprocal pixels wide and the check counts the pixels of the
@@ -33,9 +40,11 @@ RULE = ("Probe: grids 1-64 odd/even/rectangular, anisotropic extent 3-30 A, ener
         "distributions (from_values with non-unit weights, uniform, gaussian); tilt none/base/per-axis distributions/Nx2; "
         "positions none/custom 1-20 incl. off-grid, negative and outside the cell/GridScan/LineScan; eager/lazy with "
         "max_batch auto or small; float32/float64; built directly or inside multislice/scan pipelines. PlaneWave: "
-        "normalize True/False, same tilts, grids incl. size-1 axes. non-trivial = probe with non-zero aberrations or tilt or "
+        "normalize True/False, same tilts, grids incl. size-1 axes. Joint: 2-3 lazy builders of one class on one grid with "
+        "different parameters computed together (dask.compute / stack / lazy difference / after vacuum multislice). non-trivial = probe with non-zero aberrations or tilt or "
         ">=2 positions, plane wave with >=2 pixels; distinct = distinct case signature")
-CLAUSES = ["probe-unit-intensity", "planewave-normalized", "planewave-unit-modulus", "ensemble-shape", "pipeline-incident-wave"]
+CLAUSES = ["probe-unit-intensity", "planewave-normalized", "planewave-unit-modulus", "ensemble-shape", "pipeline-incident-wave",
+           "joint-compute-normalized", "joint-compute-equals-separate"]
 QUICK = dict(n=700, time=30)
 THOROUGH = dict(n=119400, time=480, shards=16)
 
@@ -71,6 +80,14 @@ def _tilt_size(spec):
     if spec["kind"] == "pairs":
         return len(spec["t"])
     return 1
+
+
+def _tilt_shape(spec):
+    if spec["kind"] == "axes":
+        return (len(spec["x"]),) + ((len(spec["y"]),) if isinstance(spec["y"], list) else ())
+    if spec["kind"] == "pairs":
+        return (len(spec["t"]),)
+    return ()
 
 
 def _tilt_arg(spec):
@@ -202,8 +219,48 @@ def gen_plane(rng):
             "precision": str(rng.choice(["float32", "float64"])), "via": str(rng.choice(["build", "build", "multislice"]))}
 
 
+def gen_joint(rng, cls=None, route=None):
+    """2-3 lazy builders of one class on one grid with different parameters, evaluated in ONE dask computation."""
+    cls = cls or str(rng.choice(["probe", "plane"]))
+    route = route or str(rng.choice(["compute", "compute", "stack", "difference", "multislice"]))
+    gpts, extent = _grid(rng, lo=2)
+    n = 2 if route == "difference" else int(rng.integers(2, 4))
+    npos = int(rng.integers(1, 4))
+    same_shape = route != "compute" or rng.random() < 0.6      # stack / arithmetic need equal shapes
+    tilt0 = _tilt_spec(rng)
+    members = []
+    for i in range(n):
+        m = gen_plane(rng) if cls == "plane" else gen_probe(rng)
+        m.update(gpts=gpts, extent=extent, lazy=True, via="build")
+        if cls == "plane":
+            m["normalize"] = bool(i % 2 == 0) if rng.random() < 0.8 else bool(rng.random() < 0.5)
+        else:
+            if m["aperture"]["type"] in ("annular", "bullseye"):
+                m["aperture"] = {"type": "cutoff", "cutoff": float(rng.uniform(5, 40)), "soft": bool(rng.random() < 0.5)}
+        if same_shape:
+            # same ensemble shape (hence the same dask chunk structure) for every member, different values
+            t = _tilt_spec(rng)
+            while t["kind"] != tilt0["kind"] or _tilt_shape(t) != _tilt_shape(tilt0):
+                t = _tilt_spec(rng)
+            m["tilt"] = t
+            if cls == "probe":
+                m["dists"] = {}
+                if m["aperture"]["type"] == "cutoff-dist":
+                    m["aperture"] = {"type": "cutoff", "cutoff": float(m["aperture"]["cutoffs"][0]), "soft": m["aperture"]["soft"]}
+                m["scan"] = {"type": "custom", "positions": rng.uniform(-0.5, 1.5, size=(npos, 2)).round(5).tolist()}
+                m["max_batch"] = "auto"
+        members.append(m)
+    prec = str(rng.choice(["float32", "float32", "float64"]))
+    for m in members:
+        m["precision"] = prec
+    return {"kind": "joint", "cls": cls, "route": route, "members": members, "precision": prec}
+
+
 def gen(rng, tier):
-    return gen_probe(rng) if rng.random() < 0.8 else gen_plane(rng)
+    r = rng.random()
+    if r < 0.12:
+        return gen_joint(rng)
+    return gen_probe(rng) if r < 0.82 else gen_plane(rng)
 
 
 def fixed_cases(tier):
@@ -225,6 +282,9 @@ def fixed_cases(tier):
     out.append(dict(base, aperture={"type": "cutoff", "cutoff": 20.0, "soft": False}, via="multislice", lazy=True, max_batch=2))
     out.append(dict(base, aperture={"type": "cutoff", "cutoff": 15.0, "soft": True}, via="scan", precision="float64",
                     tilt={"kind": "pairs", "t": [[1.0, 2.0], [3.0, -4.0]]}))
+    for cls, route in (("plane", "compute"), ("plane", "stack"), ("probe", "compute"), ("probe", "difference"),
+                       ("plane", "multislice"), ("probe", "stack")):
+        out.append(gen_joint(rng, cls=cls, route=route))
     for norm in (True, False):
         for lazy in (False, True):
             out.append({"kind": "plane", "gpts": [7, 12], "extent": [3.0, 4.0], "energy": 100e3, "normalize": norm,
@@ -342,13 +402,9 @@ def _judge_hook(ctx, seen, expected, case, mode):
     ctx.expect(members == expected, "pipeline-incident-wave", what="members seen by the hook", seen=members, expected=expected)
 
 
-def check_probe(ctx, case):
+def _probe_builder(case):
+    """(Probe, scan, expected number of members, number of positions) for a probe case; call under the case's config."""
     import abtem
-    import abtem.multislice as ms
-    gpts = tuple(case["gpts"])
-    if case["aperture"]["type"] == "annular" and ring_pixels(case) < 1:
-        ctx.note("degenerate-empty-ring-skipped")
-        return
     ab = {}
     for k, v in case["coeffs"].items():
         ab[ALIAS[k] if case["alias"] else k] = v
@@ -356,12 +412,23 @@ def check_probe(ctx, case):
     for k, d in case["dists"].items():
         ab[ALIAS[k] if case["alias"] else k] = _dist_arg(d)
         nab *= _dist_len(d)
+    apkw, nap = _aperture(case)
+    scan, npos = _scan(case)
+    expected = _tilt_size(case["tilt"]) * nab * nap * npos
+    probe = abtem.Probe(energy=case["energy"], gpts=tuple(case["gpts"]), extent=tuple(case["extent"]),
+                        tilt=_tilt_arg(case["tilt"]), aberrations=ab, **apkw)
+    return probe, scan, expected, npos
+
+
+def check_probe(ctx, case):
+    import abtem
+    import abtem.multislice as ms
+    gpts = tuple(case["gpts"])
+    if case["aperture"]["type"] == "annular" and ring_pixels(case) < 1:
+        ctx.note("degenerate-empty-ring-skipped")
+        return
     with abtem.config.set({"precision": case["precision"], "diagnostics.progress_bar": False}):
-        apkw, nap = _aperture(case)
-        scan, npos = _scan(case)
-        expected = _tilt_size(case["tilt"]) * nab * nap * npos
-        probe = abtem.Probe(energy=case["energy"], gpts=gpts, extent=tuple(case["extent"]), tilt=_tilt_arg(case["tilt"]),
-                            aberrations=ab, **apkw)
+        probe, scan, expected, npos = _probe_builder(case)
         kw = {"lazy": case["lazy"], "max_batch": case["max_batch"]}
         if case["via"] == "build":
             w = probe.build(scan=scan, **kw)
@@ -423,5 +490,65 @@ def check_plane(ctx, case):
     ctx.nontrivial(gpts[0] * gpts[1] >= 2)
 
 
+def check_joint(ctx, case):
+    """Several lazy builds of one class in one dask computation: every member keeps its own normalisation and equals the
+    eager build of a fresh builder with the same parameters."""
+    import abtem
+    import dask
+    prec = case["precision"]
+    ms_ = case["members"]
+    with abtem.config.set({"precision": prec, "diagnostics.progress_bar": False}):
+        def build(m, lazy):
+            if case["cls"] == "plane":
+                pw = abtem.PlaneWave(energy=m["energy"], gpts=tuple(m["gpts"]), extent=tuple(m["extent"]),
+                                     normalize=m["normalize"], tilt=_tilt_arg(m["tilt"]))
+                return pw.build(lazy=lazy)
+            probe, scan, _, _ = _probe_builder(m)
+            return probe.build(scan=scan, lazy=lazy, max_batch=m["max_batch"])
+        lazies = [build(m, True) for m in ms_]
+        refs = [np.asarray(build(m, False).array) for m in ms_]
+        ctx.expect(all(w.is_lazy for w in lazies), "joint-compute-equals-separate", what="lazy build is lazy")
+        route = case["route"]
+        got = None
+        if route == "compute":
+            got = [np.asarray(a) for a in dask.compute(*[w.array for w in lazies])]
+        elif route == "stack":
+            st = abtem.stack(lazies, tuple("m%d" % i for i in range(len(lazies)))).compute()
+            got = [np.asarray(st.array[i]) for i in range(len(lazies))]
+        elif route == "multislice":
+            # the lazily built waves travel through one more lazy layer (vacuum multislice) before the joint compute
+            dtype = np.float64 if prec == "float64" else np.float32
+            m0 = ms_[0]
+            vac = abtem.PotentialArray(np.zeros((1,) + tuple(m0["gpts"]), dtype=dtype), slice_thickness=1.0, extent=tuple(m0["extent"]))
+            outs = dask.compute(*[w.multislice(vac).array for w in lazies])
+            for i, (o, m) in enumerate(zip(outs, ms_)):
+                want = np.asarray(build(m, False).multislice(vac).array)       # eager build, eager multislice
+                o = np.asarray(o)
+                if ctx.expect(o.shape == want.shape, "joint-compute-equals-separate", member=i, shape=list(o.shape), want=list(want.shape)):
+                    ctx.close(o, want, "joint-compute-equals-separate", rtol=0, atol=TOL[prec] * float(np.abs(refs[i]).max()),
+                              member=i, route=route)
+        else:
+            d = (lazies[0].intensity() - lazies[1].intensity()).compute()
+            want = np.abs(refs[0].astype(np.complex128)) ** 2 - np.abs(refs[1].astype(np.complex128)) ** 2
+            scale = max(float(np.abs(refs[0]).max()), float(np.abs(refs[1]).max())) ** 2
+            ctx.close(np.asarray(d.array), want, "joint-compute-equals-separate", rtol=0, atol=TOL[prec] * scale, route=route)
+        if got is not None:
+            for i, (g, r, m) in enumerate(zip(got, refs, ms_)):
+                if not ctx.expect(g.shape == r.shape, "joint-compute-equals-separate", member=i, shape=list(g.shape), want=list(r.shape)):
+                    continue
+                ctx.close(g, r, "joint-compute-equals-separate", rtol=0, atol=TOL[prec] * float(np.abs(r).max()), member=i,
+                          route=route)
+                if case["cls"] == "plane" and not m["normalize"]:
+                    ctx.close(modulus_dev(g), 0.0, "joint-compute-normalized", rtol=0, atol=TOL[prec], member=i, what="unit modulus")
+                else:
+                    tot = dft_totals(g)
+                    ctx.close(tot, np.ones_like(tot), "joint-compute-normalized", rtol=0, atol=TOL[prec], member=i)
+        else:
+            ctx.clauses["joint-compute-normalized"] += 0
+    ctx.monitor("joint-" + case["cls"] + "-" + case["route"])
+    differ = any(not (a.shape == b.shape and np.array_equal(a, b)) for a, b in zip(refs[:-1], refs[1:]))
+    ctx.nontrivial(differ)
+
+
 def check(ctx, case):
-    (check_probe if case["kind"] == "probe" else check_plane)(ctx, case)
+    {"probe": check_probe, "plane": check_plane, "joint": check_joint}[case["kind"]](ctx, case)
